@@ -314,6 +314,8 @@ pub struct FInfo {
     pub nonfatal: usize,
     pub usable_after_nonfatal: usize,
     pub badquery: usize,
+    /// the bench contains a co-simulation whose inner run ends with an error
+    pub nested_failed_inner: bool,
     pub tokens: i64,
     pub dropped_with_pending_sched: bool,
     pub dropped_stalled: bool,
@@ -413,6 +415,10 @@ pub fn eval_fcase(c: &FCase, prop: &str) -> Result<FInfo, Verdict> {
     const BOTH: &[&str] = &["C11", "C19"];
     let mut info = FInfo::default();
     let b = faulty_bench(c);
+    info.nested_failed_inner = b
+        .models
+        .iter()
+        .any(|m| m.init.iter().chain(m.scripts.iter().flatten()).any(|o| matches!(o, Op::Nested { inner_fault, .. } if *inner_fault > 0)));
     let q = qualified_names(&b);
     let n = b.models.len();
     // discard cases whose init expansion explodes
@@ -755,8 +761,16 @@ pub fn eval_fcase(c: &FCase, prop: &str) -> Result<FInfo, Verdict> {
                     props: BOTH_C11,
                 });
             }
+            // a run in which every message was processed, reported as stalled: also C06
+            let spurious_stall = x == Expect::Ok && matches!(err, Some(ErrKind::Deadlock(_)) | Some(ErrKind::MessageLoss(_)));
             return Err(ffail(
-                if name_only_mismatch(&x, &err) { C11_C16 } else { BOTH_C11 },
+                if spurious_stall {
+                    &["C11", "C06"]
+                } else if name_only_mismatch(&x, &err) {
+                    C11_C16
+                } else {
+                    BOTH_C11
+                },
                 "error-classification",
                 format!("command #{} {:?} returned {:?}, expected {:?} (fault {:?})", i - 1, cmd, err, x, c.fault),
             ));
@@ -885,7 +899,7 @@ pub fn fcase_strategy(exec: BoxedStrategy<Exec>, spin: bool) -> BoxedStrategy<FC
                     proptest::option::weighted(0.4, 0u8..8),
                     proptest::collection::vec((0u8..10, -6i64..0), 0..3),
                     proptest::collection::vec((0u8..10, 0u64..5), 0..3),
-                    proptest::option::weighted(0.25, (any::<u16>(), 0u16..4, 0u8..4, 1u8..3, 1u8..4, 0u8..3, 0u8..3, 0u8..2, any::<bool>())),
+                    proptest::option::weighted(0.25, (any::<u16>(), 0u16..4, 0u8..4, 1u8..3, 1u8..4, 0u8..3, 0u8..3, 0u8..3, any::<bool>())),
                     proptest::option::weighted(0.3, (0u8..10, 0u16..2, 1u8..3)),
                 )
                     .prop_map(move |(fault, post, drop_after, invalids, forwards, nested, badq)| {
@@ -1067,6 +1081,7 @@ impl SubCheck for FSub {
                 }
                 let nt = match self.prop {
                     "C16" => i.fault_in_submodel,
+                    "C06" => i.nested_failed_inner,
                     "C11" => (i.fault_hit.is_some() && i.fault_hit != Some("init") && i.post_calls >= 2) || i.usable_after_nonfatal > 0,
                     _ => i.tokens >= 5 && (i.dropped_failed || i.dropped_with_pending_sched),
                 };
